@@ -47,21 +47,31 @@ type WorkerResult struct {
 	Extra         map[string]int `json:"extra,omitempty"`
 }
 
-var wdDeadline atomic.Int64
+var wdSerial atomic.Int64 // odd while an engine call is in progress; changes with every call
 
+// startWatchdog declares an engine call hanging when it is still the same call after budget seconds' worth
+// of watchdog ticks. Ticks, not wall-clock time: when the whole VM is paused (a snapshot being taken) or
+// the process is not scheduled, the ticking goroutine stands still with the engine call, so a pause of
+// any length costs one tick and is not mistaken for a hang (seen as three simultaneous "hangs" in one
+// thorough run, none of which reproduced).
 func startWatchdog(budget time.Duration, onHang func()) {
 	world.Watchdog = func(entering bool) {
-		if entering {
-			wdDeadline.Store(time.Now().Add(budget).UnixNano())
-		} else {
-			wdDeadline.Store(0)
-		}
+		wdSerial.Add(1)
 	}
+	const tick = 250 * time.Millisecond
+	need := int(budget / tick)
 	go func() {
+		last, same := int64(0), 0
 		for {
-			time.Sleep(250 * time.Millisecond)
-			if d := wdDeadline.Load(); d != 0 && time.Now().UnixNano() > d {
-				onHang()
+			time.Sleep(tick)
+			cur := wdSerial.Load()
+			if cur%2 == 1 && cur == last {
+				same++
+				if same >= need {
+					onHang()
+				}
+			} else {
+				last, same = cur, 0
 			}
 		}
 	}()
